@@ -61,7 +61,8 @@ def materialise(img: t.Any) -> t.Any:
     from .tg import VolImage
     if isinstance(img, Inst):
         cls = img.cls.pytype()
-        kw = {k: materialise(v) for (k, v) in img.values.items() if k in {f.name for f in img.cls.fields if f.init}}
+        # (only the fields the image records as given: a validation hook may look at the record of set fields)
+        kw = {k: materialise(v) for (k, v) in img.values.items() if k in {f.name for f in img.cls.fields if f.init} and k in img.set_fields}
         return cls.make_unchecked(**kw)
     if isinstance(img, VolImage):
         from pane.types import ValueOrList
@@ -239,6 +240,8 @@ class ClsNode(Node):
         return _DEFAULT_CACHE[k]
 
     def post_image(self) -> t.Any:
+        if self._post_img is None and self.post is not None and self.post[0] != 'reject':
+            self._post_img = (None,)
         if self._post_img is None and self.post is not None:
             (_, fname, data) = self.post
             f = next(x for x in self.fields if x.name == fname)
@@ -291,11 +294,16 @@ class ClsNode(Node):
         if self.post is not None or count_key is not None:
             fname = self.post[1] if self.post is not None else None
             img = self.post_image()[0] if self.post is not None else None
+            hook_kind = self.post[0] if self.post is not None else None
 
             def __post_init__(self):
                 if count_key is not None:
                     POST_COUNTS[count_key] = POST_COUNTS.get(count_key, 0) + 1
-                if fname is not None and same(getattr(self, fname), img) is None:
+                if hook_kind == 'reject_if_set':
+                    # a validation hook that looks at which fields were given explicitly (through the public record of set fields)
+                    if fname in self.dict(set_only=True):
+                        raise PostInitBoom("tok_post_init_boom")
+                elif fname is not None and same(getattr(self, fname), img) is None:
                     raise PostInitBoom("tok_post_init_boom")
             ns['__post_init__'] = __post_init__
         opts = {k: (tuple(v) if isinstance(v, list) else v) for (k, v) in self.opts.items()}
@@ -359,7 +367,10 @@ class ClsNode(Node):
         if self.post is not None:
             from .same import same
             fname = self.post[1]
-            if fname in values and same(values[fname], self.post_image()[0]) is None:
+            if self.post[0] == 'reject_if_set':
+                if fname in given:
+                    return Rej('__post_init__ raised (field given explicitly)')
+            elif fname in values and same(values[fname], self.post_image()[0]) is None:
                 return Rej('__post_init__ raised')
         return Acc(Inst(self, values, set(given)))
 
@@ -437,6 +448,8 @@ class ClsNode(Node):
         """Is the configured output form accepted back on input (the precondition of C05/C06 for dataclasses)?"""
         if self.out_format not in self.in_format:
             return False
+        if self.post is not None and self.post[0] == 'reject_if_set':
+            return False    # the user's hook refuses data that gives this field, and the output gives every field
         outs = self.out_fields()
         if self.out_format == 'struct':
             for f in outs:
@@ -686,6 +699,10 @@ def class_specs(draw, field_types: st.SearchStrategy[t.Any], *, max_fields: int 
     if hooks and hookable and draw(st.integers(0, 5)) == 5:
         fs = draw(st.sampled_from(hookable))
         cs['post'] = ['reject', fs['name'], draw(node(fs['type']).valid())]
+        with_default = [f for f in fields if f.get('init', True) and 'default' in f and not f.get('exclude')]
+        if with_default and draw(st.integers(0, 2)) == 2:
+            # a hook about *which* fields were given: the record of set fields must already be right when the hook runs
+            cs['post'] = ['reject_if_set', draw(st.sampled_from(with_default))['name'], None]
     return ('cls', cs)
 
 
